@@ -6,7 +6,11 @@
    -- every pair of representations, both directions, and the commuting squares
  E1 (all values): lar2rc(rc2lar(k)) = k, rc2lar(lar2rc(g)) = g, is2rc(rc2is(k)) = k, rc2is(is2rc(s)) = s on their domains;
    rc2lar / rc2is reject max|k| >= 1
- poly2lsf / lsf2poly (numpy.roots based) are not decidable by contracts: not claimed.
+ E3 (bounded order, all frequencies): lsf2poly(w) is the monic polynomial whose sum filter a1 + rev(a1) vanishes at exp(i w_j), j even,
+   and whose difference filter a1 - rev(a1) vanishes at exp(i w_j), j odd (a1 = [a, 0]) -- the definition of "w are the line spectral
+   frequencies of a", which determines a uniquely for distinct w; angles enter through t_j = tan(w_j/2)
+ E3 (bounded order): poly2lsf hands numpy.roots exactly the quotients P, Q with P*(trivial factor) = a1 - rev(a1), Q*(trivial factor) = a1 + rev(a1)
+   (recording stub); the root finder, the order in which it returns conjugate pairs, numpy.angle and sorted are assumed (A-ROOTS)
 """
 from fractions import Fraction
 from pyvc import values as V
@@ -16,18 +20,23 @@ from .e3 import E3, e3_interp, stepup, ac_from_rc, names_for, ksyms
 
 META = {
     "level": "other",
-    "functions": ["spectrum.linear_prediction.{ac2poly,ac2rc,poly2ac,poly2rc,rc2poly,rc2ac,rc2lar,lar2rc,rc2is,is2rc}",
+    "functions": ["spectrum.linear_prediction.{ac2poly,ac2rc,poly2ac,poly2rc,rc2poly,rc2ac,rc2lar,lar2rc,rc2is,is2rc,lsf2poly,poly2lsf}",
                   "spectrum.levinson.{LEVINSON,rlevinson,levup,levdown}"],
     "assumptions": ["A-REAL", "bounded in order (p <= 4 quick, 6 thorough), all values; L-PARAM (admissible parameter sets are exactly the "
                     "(r0, k) with r0 > 0, |k_i| < 1; the identities are proved as identities of Q(r0, k), i.e. wherever no divisor vanishes)",
                     "A-ELEM inverse pairs: tanh(arctanh t) = t, arctanh(tanh t) = t, sin(arcsin t) = t (|t|<=1), arcsin(sin t) = t (|t|<=pi/2)",
-                    "poly2lsf / lsf2poly rely on numpy.roots / numpy.poly / deconvolve (iterative eigenvalue code): no contract in reach, "
-                    "not claimed (clause-level not-applicable)"],
+                    "A-ROOTS: numpy.roots returns every root of its argument, ordered so that r[1::2] holds one member of each conjugate "
+                    "pair (an implementation property of the eigenvalue routine, relied upon by poly2lsf); numpy.angle, sorted: assumed. "
+                    "poly2lsf is therefore verified only up to the polynomials it hands to numpy.roots; the minimum-phase guard "
+                    "(max|roots(a)| >= 1) is treated as the precondition",
+                    "lsf.*: unit roots written as exp(i w) = ((1-t^2) + 2 t i)/(1+t^2), t = tan(w/2): every w in (-pi, pi); w = pi excluded "
+                    "(outside the statement's open interval); strict ordering / interlacing of the frequencies of a minimum-phase "
+                    "polynomial is a theorem about the specification, not claimed"],
     "trusted_base": ["sympy.polys (exact rational-function arithmetic)"],
     "explanation": "Deductive, bounded in order: the real conversion routines are executed on elements of Q(r0, k) and each round trip / "
                    "commuting square is decided as an identity of that field (all values at once) for orders up to the bound; the "
                    "scalar bijections (log-area ratio, inverse sine) are proved for all values by the SMT engine with inverse-pair axioms.",
-    "bounded_note": "orders p <= 4 quick / 6 thorough",
+    "bounded_note": "orders p <= 4 quick / 6 thorough; lsf.* orders p <= 5 quick / 7 thorough",
 }
 
 
@@ -74,7 +83,7 @@ def lp_task(p, cx):
                 v2 = E.run(I, lambda I_: I_.call_qual("spectrum.levinson.levdown", mk(poly), P))
                 if v2 is not None:
                     E.eq("levdown(levup(a,k))=a", v2[0], prev)
-    return Task("lp.%s.p%d" % ("complex" if cx else "real", p), run, kind="bounded",
+    return Task("lp.%s.p%d" % ("complex" if cx else "real", p), run, kind="bounded", prerun=True,
                 functions=["spectrum.linear_prediction.*", "spectrum.levinson.rlevinson"])
 
 
@@ -141,6 +150,91 @@ def reject_task(fn):
     return Task("scalar.reject.%s" % fn, run, functions=["spectrum.linear_prediction." + fn])
 
 
+def _horner(coeffs, z):
+    acc = 0
+    for c in coeffs:
+        acc = acc * z + c
+    return acc
+
+
+def lsf2poly_task(p):
+    """lsf2poly on p symbolic frequencies"""
+    def run(tc):
+        names = ["pi"] + ["w%d" % j for j in range(p)] + ["t%d" % j for j in range(p)]
+        dom, I = e3_interp(tc, names)
+        E = E3(tc, dom, "lsf", {"p": p}, tc.seed)
+        for j in range(p):
+            dom.angle("w%d" % j, "t%d" % j)
+        w = [dom.sym("w%d" % j) for j in range(p)]
+        z = [dom.elem("exp", Cx(Fraction(0), wj)) for wj in w]
+        v = E.run(I, lambda I_: I_.call_qual("spectrum.linear_prediction.lsf2poly", Arr.from_items(w, dtype="float")))
+        if v is None:
+            return
+        a = v.to_list()
+        E.ok("lsf2poly:length=p+1", len(a) == p + 1, "length %d" % len(a))
+        if len(a) != p + 1:
+            return
+        E.eq("lsf2poly:monic", a[0], 1)
+        E.eq("lsf2poly:real-coefficients", [V.Cx.of(c).im for c in a], [0] * len(a))
+        a1 = list(a) + [0]
+        rev = a1[::-1]
+        summ = [x + y for x, y in zip(a1, rev)]
+        diff = [x - y for x, y in zip(a1, rev)]
+        for j in range(p):
+            if j % 2 == 0:
+                E.eq("lsf2poly:sum-filter-vanishes-at-exp(i*w%d)" % j, V.Cx.of(_horner(summ, z[j])), Cx(Fraction(0), Fraction(0)))
+            else:
+                E.eq("lsf2poly:difference-filter-vanishes-at-exp(i*w%d)" % j, V.Cx.of(_horner(diff, z[j])), Cx(Fraction(0), Fraction(0)))
+    return Task("lsf.lsf2poly.p%d" % p, run, kind="bounded", prerun=True, functions=["spectrum.linear_prediction.lsf2poly"])
+
+
+def poly2lsf_task(p):
+    """poly2lsf up to its calls of numpy.roots"""
+    def run(tc):
+        names = ["a%d" % j for j in range(1, p + 1)]
+        dom, I = e3_interp(tc, names)
+        E = E3(tc, dom, "lsf", {"p": p}, tc.seed)
+        a = [Fraction(1)] + [dom.sym(n) for n in names]
+        calls = []
+
+        def roots(I_, c, **kw):
+            c = c if isinstance(c, Arr) else Arr.from_items(list(c))
+            calls.append(c.to_list())
+            # first call = the minimum-phase guard (precondition: all roots inside the unit circle); later calls: recorded
+            return Arr.from_items([Fraction(0)] * max(len(calls[-1]) - 1, 0), dtype="float")
+
+        def angle(I_, r, **kw):
+            return r
+        I.lib.table["numpy.roots"] = roots
+        I.lib.table["numpy.angle"] = angle
+        v = E.run(I, lambda I_: I_.call_qual("spectrum.linear_prediction.poly2lsf", Arr.from_items(a, dtype="float")))
+        if v is None:
+            return
+        E.ok("poly2lsf:three-root-computations(guard, P, Q)", len(calls) == 3, "%d calls of numpy.roots" % len(calls))
+        if len(calls) != 3:
+            return
+        E.eq("poly2lsf:guard-on-the-input-polynomial", calls[0], a)
+        a1 = a + [Fraction(0)]
+        rev = a1[::-1]
+        diff = [x - y for x, y in zip(a1, rev)]
+        summ = [x + y for x, y in zip(a1, rev)]
+
+        def mul(x, y):
+            out = [0] * (len(x) + len(y) - 1)
+            for i, u in enumerate(x):
+                for j, w_ in enumerate(y):
+                    out[i + j] = out[i + j] + u * w_
+            return out
+        if p % 2:
+            E.eq("poly2lsf:P*(z^2-1)=difference-filter", mul(calls[1], [1, 0, -1]), diff)
+            E.eq("poly2lsf:Q=sum-filter", calls[2], summ)
+        else:
+            E.eq("poly2lsf:P*(z-1)=difference-filter", mul(calls[1], [1, -1]), diff)
+            E.eq("poly2lsf:Q*(z+1)=sum-filter", mul(calls[2], [1, 1]), summ)
+        E.ok("poly2lsf:returns-p-frequencies", len(v if isinstance(v, list) else v.to_list()) == p)
+    return Task("lsf.poly2lsf.p%d" % p, run, kind="bounded", prerun=True, functions=["spectrum.linear_prediction.poly2lsf"])
+
+
 def tasks(tier):
     pmax = 4 if tier == "quick" else 6
     ts = []
@@ -150,4 +244,7 @@ def tasks(tier):
     for w in ("lar", "lar-inv", "is", "is-inv"):
         ts.append(scalar_task(w))
     ts += [reject_task("rc2lar"), reject_task("rc2is")]
+    for p in range(1, (5 if tier == "quick" else 7) + 1):
+        ts.append(lsf2poly_task(p))
+        ts.append(poly2lsf_task(p))
     return ts
